@@ -73,8 +73,21 @@ theorem Toks.space {x : Rune} {xs : List Rune} {p : PState} {kt : KT} {l : List 
 
 /-- the spelling `text`, followed by a delimiter and anything, is scanned as the tokens `toks`, the
     scanner stopping at the delimiter -/
+def HeadOk (text : List Char) : Prop := ∃ c cs, text = c :: cs ∧ c.toNat ≠ 0
+
+theorem next_headOk {text : List Char} (h : HeadOk text) (tail : List Rune) (p : PState) :
+    (next (runesOf text ++ tail) p).2.2.errs = p.errs := by
+  obtain ⟨c, cs, rfl, hc⟩ := h
+  obtain ⟨q, hq, he⟩ := next_cons_eq (runeOf c) (runesOf cs ++ tail) p
+  rw [runesOf_cons, List.cons_append, hq, he]
+  have : ¬ ((runeOf c).bad = true ∨ (runeOf c).ch = 0) := by
+    intro h; rcases h with h | h
+    · cases h
+    · exact hc h
+  rw [if_neg this]; rfl
+
 def El (text : List Char) (toks : List KT) : Prop :=
-  text ≠ [] ∧ toks ≠ [] ∧ ∀ (d : Rune) (S : List Rune) (p : PState), IsDelim d → p.errs = 0 →
+  HeadOk text ∧ toks ≠ [] ∧ ∀ (d : Rune) (S : List Rune) (p : PState), IsDelim d → p.errs = 0 →
     ∃ q, q.errs = 0 ∧ Toks (next (runesOf text ++ d :: S) p) toks ((d.ch : Int), S, q)
 
 theorem pot_next_text (c : Char) (cs : List Char) (tail : List Rune) (p : PState) :
@@ -82,7 +95,7 @@ theorem pot_next_text (c : Char) (cs : List Char) (tail : List Rune) (p : PState
   rw [runesOf_cons, List.cons_append, pot_next_cons, List.length_append, runesOf_length]
 
 /-- an element that is a single token -/
-theorem El.single {text : List Char} {k : Kind} {t : List Nat} (hne : text ≠ [])
+theorem El.single {text : List Char} {k : Kind} {t : List Nat} (hne : HeadOk text)
     (h : ∀ (d : Rune) (S : List Rune) (p : PState), IsDelim d → p.errs = 0 → ∃ q,
       (∀ F : Nat, scan (F + 1) (next (runesOf text ++ d :: S) p).2.1 (next (runesOf text ++ d :: S) p).1
         (next (runesOf text ++ d :: S) p).2.2 = (some (k, t), ((d.ch : Int), S, q))) ∧ q.errs = 0) :
@@ -90,12 +103,10 @@ theorem El.single {text : List Char} {k : Kind} {t : List Nat} (hne : text ≠ [
   refine ⟨hne, by simp, fun d S p hd hp => ?_⟩
   obtain ⟨q, hq, he⟩ := h d S p hd hp
   refine ⟨q, he, Toks.cons hq he ?_ (Toks.nil _)⟩
-  cases text with
-  | nil => exact absurd rfl hne
-  | cons c cs =>
-    rw [pot_next_text, pot_at]
-    simp only [List.length_cons]
-    omega
+  obtain ⟨c, cs, rfl, _⟩ := hne
+  rw [pot_next_text, pot_at]
+  simp only [List.length_cons]
+  omega
 
 /-- the closing bracket as a rune -/
 def IsCloserCh (cl : Char) : Prop := cl = ')' ∨ cl = ']' ∨ cl = '}'
